@@ -532,6 +532,7 @@ Loop:
 		switch c {
 		case ' ':
 		case '\n':
+		case '\r':
 		case '\t':
 			continue
 		case '[':
@@ -1269,7 +1270,7 @@ func (p Patch) ApplyIndentWithOptions(doc []byte, indent string, options *ApplyO
 	self := newLazyNode(&raw)
 
 	var pd container
-	if doc[0] == '[' {
+	if isArray(doc) {
 		pd = &partialArray{
 			self: self,
 		}
